@@ -106,6 +106,15 @@ func (ch c20) queries(c *core.Ctx) []string {
 	qs = append(qs, strings.Repeat("$1 ", 70000)+"$3", strings.Repeat("$2,$1,", 40000)+"$7", "$5 "+strings.Repeat("$1 ", 65535),
 		strings.Repeat("$1 ", 65534)+"$2", strings.Repeat("$1 ", 65535)+"$2", strings.Repeat("$1 ", 65536)+"$2", strings.Repeat("$1 ", 65536)+"$65535",
 		strings.Repeat("$1 ", 65535)+"$2 $1 $4", strings.Repeat("(?,?),", 32767)+"(?)", strings.Repeat("(?,?),", 32768)+"(?)")
+	// markers at and around the offsets a scanner working in blocks would cut at (4 KiB ... 256 KiB): the
+	// marker with the highest index begins 6 bytes before ... 2 bytes behind the block boundary, in a long
+	// statement without any other marker near it
+	for _, base := range []int{4096, 8192, 32768, 65536, 131072, 262144} {
+		for d := -6; d <= 2; d++ {
+			pad := strings.Repeat("col = 1 and ", (base+d)/12+1)[:base+d-1] + " "
+			qs = append(qs, pad+"$12345 and b = $3", "select $2 where "+pad[16:]+"$777", pad+"? and b = ?")
+		}
+	}
 	nrand := 120000
 	if c.Tier == "thorough" {
 		nrand = 3000000
